@@ -2,6 +2,7 @@
 
 from __future__ import annotations
 
+import ast
 from pathlib import Path
 
 from lcmsa.alg import METHODS, first_difference, lib_op, norm
@@ -17,25 +18,46 @@ KNOWN_HEAD_PREFIXES = ("jax.", "numpy.", "builtins.", "operator.", "functools.",
 def ensure_ref(prog):
     if REF not in prog.modules:
         prog.load_extra(REF, REF_PATH)
+        for f in sorted(REF_PATH.parent.glob("ref_*.py")):
+            prog.load_extra(f"lcmref.{f.stem}", f)
+    if getattr(prog, "_query_canon", None) is None:
+        from lcmsa import alg
+        from lcmsa.formula import Universe, columns, parse
+
+        try:
+            from lcmsa.rules_qa import FUNC_COLS, VAR_COLS, build_universe
+
+            uni = build_universe(prog)
+        except AnalysisError:
+            uni = None
+        funi = Universe(["is_constraint", "is_filter", "is_stochastic_next", "starts_with_next"],
+                        {"is_next": ("and", ("col", "starts_with_next"),
+                                     ("and", ("not", ("col", "is_constraint")), ("not", ("col", "is_filter"))))}, [])
+
+        def canon_query(s):
+            try:
+                f = parse(s)
+            except AnalysisError:
+                return None
+            cols = columns(f)
+            if uni is not None and cols <= VAR_COLS:
+                return ("qsel", "var", tuple(sorted(uni.select(f))))
+            if cols <= FUNC_COLS:
+                return ("qsel", "func", tuple(sorted(funi.select(f))))
+            return None
+
+        prog._query_canon = canon_query  # noqa: SLF001
+    from lcmsa import alg
+
+    alg.QUERY_CANON = prog._query_canon  # noqa: SLF001
+    global _MODULE_PARTS  # noqa: PLW0603
+    _MODULE_PARTS = {part for m in prog.modules for part in m.split(".")}
 
 
 def in_vocab(t) -> bool:
-    """All constructs of the (un-normalised) term are ones the normaliser interprets."""
-    for s in walk(t):
-        if s[0] in ("unknown", "undef"):
-            return False
-        if s[0] == "call":
-            f = s[1]
-            if f[0] in ("glob",):
-                if not f[1].startswith(KNOWN_HEAD_PREFIXES) and not f[1].startswith("lcm"):
-                    return False
-            elif f[0] in ("func", "class", "closure", "param", "call", "bv", "sub"):
-                continue
-            elif f[0] == "attr":
-                continue
-            else:
-                return False
-    return True
+    """No unresolved name / undefined value occurs in the term: every head is a resolved
+    library object, an lcm function, a parameter or a closure."""
+    return all(s[0] not in ("unknown", "undef") for s in walk(t))
 
 
 def param_names(node):
@@ -62,10 +84,45 @@ def _retarget(prog, t, module):
     """Reference helpers that were not inlined denote the same-named function of ``module``."""
     if not isinstance(t, tuple):
         return t
-    if is_term(t) and t[0] == "func" and t[1].startswith(REF + "."):
-        cand = f"{module}.{t[1][len(REF) + 1:]}"
-        return ("func", cand) if cand in prog.funcs else t
+    if is_term(t) and t[0] == "func" and t[1].startswith("lcmref."):
+        short = t[1].split(".", 2)[2]
+        if "__" in short and short.split("__")[0][:1].isupper():
+            cls, meth = short.split("__", 1)
+            for cand in (f"{module}.{cls}.__{meth}__", f"{module}.{cls}.{meth}"):
+                if cand in prog.funcs:
+                    return ("func", cand)
+        cand = f"{module}.{short}"
+        if cand in prog.funcs:
+            return ("func", cand)
+        others = [q for q, i in prog.funcs.items() if q.endswith("." + short) and i.parent is None
+                  and i.cls is None and not q.startswith("lcmref.")]
+        return ("func", others[0]) if len(others) == 1 else t
     return tuple(_retarget(prog, x, module) if isinstance(x, tuple) else x for x in t)
+
+
+def _loops_of(prog, q):
+    return sorted((lid for lid, lp in prog.loops.items() if lp.func == q and "@" not in lid),
+                  key=lambda x: int(x.rsplit("loop", 1)[1]))
+
+
+def _relid(t, src_q, dst_q):
+    """Loop ids of the reference function -> loop ids of the actual function."""
+    if not isinstance(t, tuple):
+        return t
+    if is_term(t) and t[0] in ("loopvar", "carried", "loopout") and isinstance(t[1], str) and t[1].startswith(src_q + ":"):
+        return (t[0], dst_q + t[1][len(src_q):], *t[2:])
+    return tuple(_relid(x, src_q, dst_q) if isinstance(x, tuple) else x for x in t)
+
+
+def _loop_pieces(prog, q):
+    out = []
+    for k, lid in enumerate(_loops_of(prog, q)):
+        lp = prog.loops[lid]
+        out.append((f"loop {k + 1} iterable", lp.iter))
+        for n in sorted(lp.next):
+            out.append((f"loop {k + 1} update of {n}", lp.next[n]))
+            out.append((f"loop {k + 1} initial {n}", lp.init[n]))
+    return out
 
 
 def compare(ctx: Ctx, actual_q: str, ref_name: str, what: str, *, decorated=False):
@@ -86,21 +143,40 @@ def compare(ctx: Ctx, actual_q: str, ref_name: str, what: str, *, decorated=Fals
     if fa.unsupported:
         ctx.undecided(key, f"{actual_q} uses a statement outside the vocabulary ({fa.unsupported[0][0]})", where)
         return
-    ra = prog.expand(fa.ret)
-    rr = prog.expand(_rename(fr.ret, ref_q, actual_q, nr_names, na_names))
-    rr = _retarget(prog, rr, ia.module)
-    a, r = norm(ra), norm(rr)
-    # references call reference helpers; after expansion only library ops remain
+    pa = [("result", fa.ret), *_loop_pieces(prog, actual_q)]
+    pr = [("result", fr.ret), *_loop_pieces(prog, ref_q)]
     ctx.count("kernels")
-    if a == r:
+    if [l for l, _ in pa] != [l for l, _ in pr]:
+        ctx.undecided(key, f"{what}: loop structure / loop-carried names differ from the reference "
+                      f"({[l for l, _ in pa][:6]} vs {[l for l, _ in pr][:6]})", where)
+        return
+    bad = None
+    vocab = True
+    for (label, ta), (_l, tr) in zip(pa, pr, strict=True):
+        ra = prog.expand(ta)
+        rr = prog.expand(_relid(_rename(tr, ref_q, actual_q, nr_names, na_names), ref_q, actual_q))
+        rr = _retarget(prog, rr, ia.module)
+        a, r = norm(ra), norm(rr)
+        vocab = vocab and in_vocab(ra)
+        if a != r and bad is None:
+            bad = (label, first_difference(a, r, label), ra, rr)
+    ga = [(tuple(norm(c) for c in conds if c[0] != "in-loop"), _exc_class(e)) for conds, e, _n in fa.raises]
+    gr = [(tuple(norm(_relid(_rename(c, ref_q, actual_q, nr_names, na_names), ref_q, actual_q)) for c in conds if c[0] != "in-loop"), _exc_class(e))
+          for conds, e, _n in fr.raises]
+    ga = [(tuple(norm(prog.expand(c)) for c in cs), e) for cs, e in ga]
+    gr = [(tuple(norm(_retarget(prog, prog.expand(c), ia.module)) for c in cs), e) for cs, e in gr]
+    if bad is None and ga != gr:
+        d = next((f"guard {i + 1}: {first_difference(x, y, 'condition')}" for i, (x, y) in enumerate(zip(ga, gr, strict=False)) if x != y),
+                 f"{len(ga)} raise sites vs {len(gr)} in the reference")
+        bad = ("guards", d, str(ga)[:300], str(gr)[:300])
+    ra = fa.ret
+    if bad is None:
         ctx.ob(key, True, where, f"{what}: normal form equals the reference form", lhs=ra, rhs="reference " + ref_name)
+    elif vocab:
+        ctx.ob(key, False, where, f"{what}: {bad[0]} differs from the reference form at {bad[1]}", lhs=bad[2], rhs=bad[3])
     else:
-        diff = first_difference(a, r)
-        if in_vocab(ra):
-            ctx.ob(key, False, where, f"{what}: differs from the reference form at {diff}", lhs=ra, rhs=rr)
-        else:
-            ctx.undecided(key, f"{what}: differs from the reference form at {diff}, but the function uses "
-                          "constructs outside the analyser's vocabulary", where)
+        ctx.undecided(key, f"{what}: {bad[0]} differs from the reference form at {bad[1]}, but the function uses "
+                      "constructs outside the analyser's vocabulary", where)
     if decorated:
         mfa = prog.module_frame(ia.module).env.get(ia.node.name)
         mfr = prog.module_frame(REF).env.get(ir.node.name)
@@ -116,6 +192,235 @@ def compare(ctx: Ctx, actual_q: str, ref_name: str, what: str, *, decorated=Fals
         ctx.ob(key + ":decorators", da == dr, where,
                f"{what}: decorators equal the reference" if da == dr else
                f"{what}: decorator differs: {first_difference(da, dr)}", lhs=mfa, rhs=mfr)
+
+
+def _exc_class(t):
+    if t[0] == "call":
+        n = callee_name(t) or (t[1][1] if t[1][0] in ("class",) else repr(t[1][:2]))
+    elif t[0] in ("glob", "class"):
+        n = t[1]
+    else:
+        n = repr(t[:2])
+    return n.rsplit(".", 1)[-1]
+
+
+def _short_q(q):
+    """Qualified name without the module part (lcm.<mod>. / lcmref.<file>.)."""
+    parts = q.split(".")
+    if parts[0] == "lcmref":
+        parts = parts[2:]
+    else:
+        # drop leading package/module components: everything before the first function/class name
+        while len(parts) > 1 and parts[0] in ("lcm", "input_processing") or (len(parts) > 1 and parts[0].islower() and parts[1] not in ("<locals>",) and _is_module_part(parts[0])):
+            parts = parts[1:]
+    out = ".".join(parts)
+    # reference methods are written Class__meth
+    return out
+
+
+_MODULE_PARTS = None
+
+
+def _is_module_part(name):
+    return name in _MODULE_PARTS if _MODULE_PARTS is not None else False
+
+
+def reify_closures(prog, t, depth=0):
+    """('closure', q, id) -> ('closure', parent, ordinal, captured values): two closures are
+    equal iff they come from the same place and captured equal values."""
+    if not isinstance(t, tuple):
+        return t
+    if is_term(t) and t[0] == "closure" and len(t) == 3 and isinstance(t[2], int):
+        cid = t[2]
+        info, snapshot, _conds = prog.closures[cid]
+        parent = info.parent or ""
+        sibs = sorted(c for c, (i, _s, _c) in prog.closures.items() if i.parent == parent and _same_instance(prog, c, cid))
+        ordinal = _def_ordinal(prog, info)
+        cap = ()
+        if depth < 3:
+            free = _free_names(info.node)
+            cap = tuple(sorted(
+                (("cap", n, reify_closures(prog, snapshot[n], depth + 1)) for n in free
+                 if n in snapshot and n != info.node.name),
+                key=lambda kv: kv[1]))
+        return ("closure", _short_q(parent), ordinal, cap)
+    return tuple(reify_closures(prog, x, depth) if isinstance(x, tuple) else x for x in t)
+
+
+def _same_instance(prog, a, b):
+    return True
+
+
+def norm_safe(t):
+    return t
+
+
+def _def_ordinal(prog, info):
+    """Position of the nested def among the nested defs of its parent (source order)."""
+    pinfo = prog.funcs.get(info.parent)
+    if pinfo is None:
+        return 0
+    k = 0
+    for n in ast.walk(pinfo.node):
+        if isinstance(n, (ast.FunctionDef, ast.AsyncFunctionDef)) and n is not pinfo.node:
+            if n is info.node:
+                return k
+            k += 1
+    return k
+
+
+def _free_names(fnode):
+    a = fnode.args
+    bound = {x.arg for x in a.posonlyargs + a.args + a.kwonlyargs}
+    if a.vararg:
+        bound.add(a.vararg.arg)
+    if a.kwarg:
+        bound.add(a.kwarg.arg)
+    loads = set()
+    for n in ast.walk(fnode):
+        if isinstance(n, ast.Name):
+            if isinstance(n.ctx, ast.Load):
+                loads.add(n.id)
+            else:
+                bound.add(n.id)
+    return sorted(loads - bound)
+
+
+def strip_messages(t):
+    """Error-message texts are not behaviour: replace them by a placeholder."""
+    if not isinstance(t, tuple):
+        return t
+    if is_term(t):
+        if t[0] == "mut" and t[2] == "append" and len(t[3]) == 1 and _is_text(t[3][0]):
+            return ("mut", strip_messages(t[1]), "append", (("msg",),), t[4])
+        if t[0] == "call" and _is_exception(t[1]):
+            return ("call", t[1], (("msg",),) if t[2] else (), ())
+    return tuple(strip_messages(x) if isinstance(x, tuple) else x for x in t)
+
+
+def _is_text(t):
+    if t[0] == "const" and isinstance(t[1], str):
+        return True
+    if t[0] == "fstr":
+        return True
+    if t[0] == "binop" and t[1] == "+":
+        return _is_text(t[2]) or _is_text(t[3])
+    if t[0] == "tuple":
+        return all(_is_text(x) for x in t[1])
+    return False
+
+
+def _is_exception(f):
+    name = f[1] if f[0] in ("glob", "class") else ""
+    return name.endswith("Error") or name.endswith("Exception")
+
+
+def compare_factory(ctx: Ctx, actual_q: str, ref_name: str, what: str):
+    """Factory + the closures it defines, paired in definition order."""
+    prog = ctx.prog
+    ensure_ref(prog)
+    ref_q = ref_name if ref_name.startswith("lcmref.") else f"{REF}.{ref_name}"
+    key = f"KER:{actual_q.removeprefix('lcm.')}"
+    if actual_q not in prog.funcs:
+        ctx.undecided(key, f"function {actual_q} not found (anchor vanished)")
+        return
+    ia, ir = prog.funcs[actual_q], prog.funcs[ref_q]
+    fa, fr = prog.frame(actual_q), prog.frame(ref_q)
+    where = prog.node_where(ia.module, ia.node)
+    ca = sorted(c for cs in fa.closures.values() for c in cs)
+    cr = sorted(c for cs in fr.closures.values() for c in cs)
+    na_names, nr_names = param_names(ia.node), param_names(ir.node)
+    if len(ca) != len(cr) or len(na_names) != len(nr_names) or fa.unsupported:
+        ctx.undecided(key, f"{actual_q}: shape of the factory changed ({len(ca)} closures, {len(na_names)} parameters)", where)
+        return
+    mapping = {}
+    qmap = {ref_q: actual_q}
+    for a, b in zip(_all_params(ir.node), _all_params(ia.node), strict=False):
+        mapping[("param", ref_q, a)] = ("param", actual_q, b)
+    for x, y in zip(cr, ca, strict=True):
+        qx, qy = prog.closures[x][0], prog.closures[y][0]
+        qmap[qx.qualname] = qy.qualname
+        for a, b in zip(_all_params(qx.node), _all_params(qy.node), strict=False):
+            mapping[("param", qx.qualname, a)] = ("param", qy.qualname, b)
+    idx_a = {c: i for i, c in enumerate(ca)}
+    idx_r = {c: i for i, c in enumerate(cr)}
+
+    def canon(t, idx, is_ref):
+        if not isinstance(t, tuple):
+            return t
+        if is_term(t) and t[0] == "param" and t in mapping:
+            return mapping[t]
+        if is_ref and is_term(t) and t[0] in ("loopvar", "carried", "loopout") and isinstance(t[1], str):
+            q, _, rest = t[1].partition(":")
+            if q in qmap:
+                return (t[0], f"{qmap[q]}:{rest}", *t[2:])
+        return tuple(canon(x, idx, is_ref) if isinstance(x, tuple) else x for x in t)
+
+    def prep(t, idx, is_ref):
+        t = prog.expand(t)
+        t = reify_closures(prog, t)
+        t = strip_messages(canon(t, idx, is_ref))
+        return _retarget(prog, t, ia.module) if is_ref else t
+
+    def pieces(frame, q, closures, tag):
+        out = [("factory result", frame.ret), *[(f"factory {l}", t) for l, t in _loop_pieces(prog, q)]]
+        guards = [(conds, e) for conds, e, _n in frame.raises]
+        for i, c in enumerate(closures):
+            cf = prog.closure_frame(c)
+            cq = prog.closures[c][0].qualname
+            out.append((f"closure {i + 1} result", cf.ret))
+            out += [(f"closure {i + 1} {l}", t) for l, t in _loop_pieces(prog, cq)]
+            guards += [(conds, e) for conds, e, _n in cf.raises]
+        return out, guards
+
+    pa, ga = pieces(fa, actual_q, ca, "a")
+    pr, gr = pieces(fr, ref_q, cr, "r")
+    ctx.count("kernels")
+    if [l for l, _ in pa] != [l for l, _ in pr]:
+        ctx.undecided(key, f"{what}: loop structure / loop-carried names differ from the reference", where)
+        return
+    bad = None
+    vocab = True
+    for (label, ta), (_l, tr) in zip(pa, pr, strict=True):
+        ra, rr = prep(ta, idx_a, False), prep(tr, idx_r, True)
+        a, r = norm(ra), norm(rr)
+        vocab = vocab and in_vocab(ra)
+        if a != r and bad is None:
+            bad = (label, first_difference(a, r, label), ra, rr)
+    na_g = [(tuple(norm(prep(c, idx_a, False)) for c in conds if c[0] != "in-loop"), _exc_class(e)) for conds, e in ga]
+    nr_g = [(tuple(norm(prep(c, idx_r, True)) for c in conds if c[0] != "in-loop"), _exc_class(e)) for conds, e in gr]
+    if bad is None and na_g != nr_g:
+        d = next((f"guard {i + 1}: {first_difference(x, y, 'condition')}" for i, (x, y) in enumerate(zip(na_g, nr_g, strict=False)) if x != y),
+                 f"{len(na_g)} raise sites vs {len(nr_g)} in the reference")
+        bad = ("guards", d, str(na_g)[:300], str(nr_g)[:300])
+    if bad is None:
+        ctx.ob(key, True, where, f"{what}: function, closures and guards equal the reference form",
+               lhs=fa.ret, rhs="reference " + ref_name)
+    elif vocab:
+        ctx.ob(key, False, where, f"{what}: {bad[0]} differs from the reference form at {bad[1]}", lhs=bad[2], rhs=bad[3])
+    else:
+        ctx.undecided(key, f"{what}: {bad[0]} differs ({bad[1]}) but uses constructs outside the vocabulary", where)
+
+
+def _all_params(node):
+    a = node.args
+    out = [x.arg for x in a.posonlyargs + a.args]
+    if a.vararg:
+        out.append(a.vararg.arg)
+    out += [x.arg for x in a.kwonlyargs]
+    if a.kwarg:
+        out.append(a.kwarg.arg)
+    return out
+
+
+def factory_rule(name, items):
+    @rule(name)
+    def r(ctx: Ctx):
+        for actual_q, ref_name, what in items:
+            compare_factory(ctx, actual_q, ref_name, what)
+        ctx.floor("kernels", len(items))
+
+    return r
 
 
 def kernel_rule(name, items):
@@ -181,3 +486,118 @@ ker_functools = kernel_rule("KER.functools", [
 ker_space = kernel_rule("KER.space", [
     ("lcm.state_space._create_value_grid", "_create_value_grid", "dense grids passed through unchanged, in grid order", False),
 ])
+
+ker_statespace = factory_rule("KER.statespace", [
+    ("lcm.state_space.create_filter_mask", "create_filter_mask",
+     "filters combined with logical_and, evaluated on the product of the restricted grids in grid order"),
+    ("lcm.state_space.create_combination_grid", "create_combination_grid",
+     "row-major (indexing='ij') mesh of the restricted grids, masked"),
+    ("lcm.state_space.create_indexers_and_segments", "create_indexers_and_segments",
+     "ranks of feasible states, -1 fill, segment ids by rank"),
+])
+ker_routing = factory_rule("KER.routing", [
+    ("lcm.input_processing.process_model._get_stochastic_weight_function", "_get_stochastic_weight_function",
+     "weights = params['shocks'][state][dependency labels in signature order]"),
+    ("lcm.input_processing.process_model._get_stochastic_next_function", "_get_stochastic_next_function",
+     "stochastic next function replaced by 'all labels of the grid', signature preserved"),
+    ("lcm.input_processing.process_model._replace_func_parameters_by_params", "_replace_func_parameters_by_params",
+     "function receives params[<its own name>]"),
+    ("lcm.input_processing.process_model._add_dummy_params_argument", "_add_dummy_params_argument",
+     "params accepted and ignored"),
+])
+ker_nextstate = factory_rule("KER.nextstate", [
+    ("lcm.next_state._get_stochastic_next_func", "_get_stochastic_next_func",
+     "draw with the key of this next-function, the weight row and the state's own grid as labels"),
+])
+ker_weights = factory_rule("KER.weights", [
+    ("lcm.model_functions.get_multiply_weights", "get_multiply_weights", "product of the per-variable weights over the product of nodes"),
+])
+ker_funcrep = factory_rule("KER.funcrep", [
+    ("lcm.function_representation._get_label_translator", "_get_label_translator", "label -> position (identity)"),
+    ("lcm.function_representation._get_lookup_function", "_get_lookup_function", "array[positions in axis order]"),
+    ("lcm.function_representation._get_coordinate_finder", "_get_coordinate_finder", "grid.get_coordinate(value)"),
+    ("lcm.function_representation._get_interpolator", "_get_interpolator", "map_coordinates(data, coordinates in axis order)"),
+])
+
+
+def gen(module, names):
+    """Items for generated reference files: lcm.<module>.<name> vs lcmref.ref_<module>.<name>."""
+    stem = "ref_" + module.replace(".", "_")
+    out = []
+    for n, what in names:
+        if "." in n:
+            cls, meth = n.split(".")
+            ref = f"lcmref.{stem}.{cls}__{meth.strip('_')}"
+        else:
+            ref = f"lcmref.{stem}.{n}"
+        out.append((f"lcm.{module}.{n}", ref, what))
+    return out
+
+
+ker_dispatchers = factory_rule("KER.dispatchers", gen("dispatchers", [
+    ("_base_productmap", "iterated vmap in reverse order of the requested names; positions from the signature"),
+    ("vmap_1d", "one vmap with in_axes 0 for exactly the requested names"),
+    ("productmap", "product map with preserved signature, keyword-only call"),
+    ("spacemap", "dense product inside/outside the joint sparse map as requested; duplicates/overlap rejected"),
+]))
+ker_wrappers = factory_rule("KER.wrappers", gen("functools", [
+    ("allow_only_kwargs", "keyword-only wrapper: rejects positional, extra and missing arguments; binds by name"),
+    ("allow_args", "positional wrapper: checks the argument count; binds by position then by name"),
+    ("get_union_of_arguments", "set union of the parameter names"),
+]))
+ker_masks = factory_rule("KER.masks", gen("state_space", [("_combine_masks", "logical_and of broadcast masks")]))
+ker_panel = factory_rule("KER.panel", gen("simulate", [
+    ("_process_simulated_data", "period-major concatenation; _period = repeat(arange(P), N)"),
+    ("_compute_targets", "targets via the function DAG, mapped jointly over all non-params arguments"),
+]))
+ker_policy = factory_rule("KER.policy", gen("simulate", [
+    ("get_discrete_policy_calculator", "arg-max over dense choice axes, then segment arg-max over sparse choices"),
+    ("determine_discrete_dense_choice_axes", "positions (+1) of the dense discrete choices"),
+    ("filter_ccv_policy", "continuous policy of the optimal dense choice (unravel over the dense grid shape)"),
+]))
+ker_mapcoord = factory_rule("KER.mapcoord", gen("ndimage", [
+    ("map_coordinates", "sum over the 2^rank corners of (product of weights) * value"),
+    ("_round_half_away_from_zero", "rounding for integer inputs"),
+]))
+ker_gridclasses = factory_rule("KER.gridclasses", gen("grids", [
+    ("_validate_continuous_grid", "start/stop numeric and finite, n_points int >= 1, start < stop"),
+    ("_validate_discrete_grid", "dataclass, non-empty, numeric, unique, codes 0..n-1 in declaration order"),
+    ("_get_field_names_and_values", "field values in declaration order"),
+    ("DiscreteGrid.__init__", "validation runs in the constructor"),
+    ("DiscreteGrid.to_jax", "array of the codes"),
+    ("ContinuousGrid.__post_init__", "validation runs in the constructor"),
+    ("LinspaceGrid.to_jax", "linspace(start, stop, n_points)"),
+    ("LinspaceGrid.get_coordinate", "linear coordinate with (start, stop, n_points)"),
+    ("LogspaceGrid.__post_init__", "positive start required"),
+    ("LogspaceGrid.to_jax", "logspace(start, stop, n_points)"),
+    ("LogspaceGrid.get_coordinate", "log coordinate with (start, stop, n_points)"),
+]))
+ker_modelvalidation = factory_rule("KER.modelvalidation", gen("user_model", [
+    ("_validate_attribute_types", "dicts with str keys, Grid values, callable functions"),
+    ("_validate_logical_consistency", "n_periods >= 1, utility present, next function per state, no state/choice overlap"),
+    ("Model.__post_init__", "both validators run in the constructor"),
+]) + gen("exceptions", [("format_messages", "message formatting")]))
+ker_template = factory_rule("KER.template", gen("input_processing.create_params_template", [
+    ("create_params_template", "beta | function params | shocks"),
+    ("_create_function_params", "free arguments = signature - (functions, choices, states, _period)"),
+    ("_create_stochastic_transition_params", "validation; shape = dependency sizes in signature order + own size"),
+]))
+ker_funcrep_guard = factory_rule("KER.funcrepguard", gen("function_representation", [
+    ("_fail_if_interpolation_axes_are_not_last", "interpolation axes must be the trailing axis names"),
+]))
+ker_nextstate_dag = factory_rule("KER.nextstatedag", gen("next_state", [
+    ("get_next_state_function", "dispatch on target"),
+    ("_get_next_state_function_solution", "all next functions as one DAG"),
+    ("_get_next_state_function_simulation", "samplers override stochastic placeholders; weights added"),
+]) + gen("mark", [("stochastic", "marker keeps the signature")]))
+ker_modeldags = factory_rule("KER.modeldags", gen("model_functions", [
+    ("get_combined_constraint", "constraints aggregated with logical_and"),
+    ("get_current_u_and_f", "utility and feasibility from one DAG"),
+    ("get_next_weights_function", "weight_<next fn> targets"),
+]) + gen("discrete_problem", [("get_solve_discrete_problem", "choice axes from variable info (last period without auxiliary)")]))
+ker_util = factory_rule("KER.util", gen("input_processing.util", [
+    ("get_function_info", "function classification by name conventions"),
+    ("_get_auxiliary_variables", "states that only occur in next functions"),
+    ("get_gridspecs", "gridspecs in canonical order"),
+    ("get_grids", "grids in canonical order"),
+]))
